@@ -730,8 +730,46 @@ fn report_foreign(ctx: &mut Ctx, when: &str) {
     }
 }
 
+/// Coverage-guided entry point (and its replay): the input is a sequence of datagrams, each prefixed by a 2-byte length,
+/// delivered one after the other to the three pipelines over one fresh world.
+pub fn fuzz_sequence(ctx: &mut Ctx, family: &str, data: &[u8]) {
+    let mut wr = Rng::new(0xF0220);
+    let mut w = new_world(&mut wr);
+    let mut pos = 0usize;
+    let mut k = 0u64;
+    while pos + 2 <= data.len() && k < 8 {
+        let l = u16::from_be_bytes([data[pos], data[pos + 1]]) as usize;
+        let end = (pos + 2 + l.min(9000)).min(data.len());
+        level1_one(ctx, &mut w, &mut wr, family, k, &data[pos + 2..end]);
+        pos = end;
+        k += 1;
+    }
+}
+
+/// Seed inputs for the coverage-guided target: short sequences of generated datagrams.
+pub fn fuzz_seeds(seed: u64) -> Vec<Vec<u8>> {
+    let ctx = Ctx::new("C14", Tier::Quick, seed, 0, 1);
+    let fams = ["valid", "hostile-response", "hostile-query", "corpus", "short"];
+    (0..240u64).map(|i| {
+        let mut out = Vec::new();
+        for j in 0..(1 + i % 3) {
+            let d = datagram(&ctx, fams[((i + j) % 5) as usize], i * 7 + j);
+            let d = &d[..d.len().min(9000)];
+            out.extend_from_slice(&(d.len() as u16).to_be_bytes());
+            out.extend_from_slice(d);
+        }
+        out
+    }).collect()
+}
+
 pub fn run(ctx: &mut Ctx) {
     if let Some(c) = ctx.replay_case.clone() {
+        if c["family"].as_str() == Some("fuzz-artifact") {
+            if let Some(b) = c["bytes"].as_str().and_then(unhex) {
+                fuzz_sequence(ctx, "fuzz-artifact", &b);
+                return;
+            }
+        }
         if let Some(b) = c["bytes"].as_str().and_then(unhex) {
             let mut wr = Rng::new(ctx.seed);
             let mut w = new_world(&mut wr);
